@@ -722,7 +722,22 @@ class EffectDomain(DefaultDomain):
         return out
 
     # lazy sequences: map(fn, seq) does nothing until it is consumed
+    generator_objects = False
+
+    def _generator_object(self, yields, st):
+        """What a call of a generator function evaluates to: the sequence of the values its body yields -- under
+        ``generator_objects`` as an iterator with its own position, shared by whoever holds it."""
+        if not self.generator_objects:
+            return val(("tuple",) + tuple(yields), st)
+        n = st.get("ev.iters", 0)
+        return val(("seqiter", n), st.set("ev.iters", n + 1).set(f"it.{n}", ("tuple",) + tuple(yields)))
+
     def force_sequence(self, interp, value, st, fr):
+        if isinstance(value, tuple) and value[:1] == ("seqiter",) and len(value) == 2:
+            rest = st.get(f"it.{value[1]}", None)
+            if not (isinstance(rest, tuple) and rest[:1] == ("tuple",)):
+                return [val(TOP, st)]
+            return [val(rest, st.set(f"it.{value[1]}", ("tuple",)))]   # consumed to its end
         if not (isinstance(value, tuple) and value[:1] == ("lazymap",)):
             return None
         fn, seq = value[1], unbox(value[2], st)   # (a list kept on the heap: what it holds now)
@@ -1354,8 +1369,8 @@ class EffectDomain(DefaultDomain):
                     out.append(exc(("exc", type(e_).__name__), r.state))
             if known and out:
                 return out
-        if d in ("bytes", "str", "int", "float", "bool", "tuple") and not call.args and not call.keywords and not st.has(fr.local(d)):
-            return [val(self._abs({"bytes": b"", "str": "", "int": 0, "float": 0.0, "bool": False, "tuple": ()}[d]) if d != "tuple" else ("tuple",), st)]
+        if d in ("bytes", "str", "int", "float", "bool", "tuple", "list") and not call.args and not call.keywords and not st.has(fr.local(d)):
+            return [val(self._abs({"bytes": b"", "str": "", "int": 0, "float": 0.0, "bool": False}[d]) if d not in ("tuple", "list") else ("tuple",), st)]
         if d == "dict.fromkeys" and 1 <= len(call.args) <= 2 and not call.keywords:
             out = []
             for r in interp._forced_list(interp.eval_list(list(call.args), st, fr), fr) if hasattr(interp, "_forced_list") else interp.eval_list(list(call.args), st, fr):
@@ -1709,7 +1724,7 @@ class EffectDomain(DefaultDomain):
                 for r in interp.auto_inline(call, st.set(key, ()), fr, self.classes):
                     ys = r.state.get(key, ())
                     s2 = r.state.set(key, st.get(key, ())) if st.has(key) else State(frozenset((k, v) for k, v in r.state.items if k != key), r.state.log)
-                    out.append(exc(r.value, s2) if r.kind == "exc" else val(("tuple",) + tuple(ys), s2))
+                    out.append(exc(r.value, s2) if r.kind == "exc" else self._generator_object(ys, s2))
                 return out
             hit = interp.auto_inline(call, st, fr, self.classes)
             if hit is not None:
